@@ -14,6 +14,20 @@ import (
 )
 
 func (e *Engine) checkImmutables(fnIndex map[string]*ssa.Function) {
+	e.tracked = map[string]bool{}
+	for _, td := range e.db.Tracked {
+		applies := len(td.Props) == 0
+		for _, p := range td.Props {
+			if p == e.prop {
+				applies = true
+			}
+		}
+		if applies {
+			for _, t := range td.Types {
+				e.tracked[t] = true
+			}
+		}
+	}
 	var keys []string
 	for k := range e.db.Types {
 		keys = append(keys, k)
